@@ -196,6 +196,28 @@ def standalone(s):
     return res
 
 
+def standalone_qualified(s):
+    """The same for a namespace-qualified attribute p:q=s (prefix declared on the element)."""
+    from suds.sax.element import Element
+    from suds.sax.parser import Parser
+    res = {}
+    e = Element("a")
+    e.addPrefix("p", "urn:p")
+    e.set("p:q", s)
+    for name, out in (("plain", e.plain()), ("str", e.str())):
+        try:
+            res[name] = xmlread.parse(out)["attrs"].get(("urn:p", "q"))
+        except xmlread.XmlError as x:
+            res[name] = "!malformed: %s" % x
+        try:
+            r2 = Parser().parse(string=out.encode("utf-8")).root()
+            a = r2.getAttribute("q", ns=(None, "urn:p"))
+            res[name + "/suds"] = None if a is None else str(a.getValue() or "")
+        except Exception as x:
+            res[name + "/suds"] = "!error: %r" % (x,)
+    return res
+
+
 class Paths:
     def __init__(self):
         w = wsdlkit.wsdl_doc(SCHEMA, "f", "fResponse")
@@ -257,6 +279,11 @@ def check_string(ctx, paths, s, model, deep):
                      path=path)
         if att is not None and att != s:
             ctx.fail("attribute value not recovered (%s)" % path, inp, att, s, direction="request",
+                     position="attr", path=path)
+    for path, att in standalone_qualified(s).items():
+        ctx.case(("tree-qattr", path, s), nontrivial)
+        if att != s and not (s == "" and att in (None, "")):
+            ctx.fail("qualified attribute value not recovered (%s)" % path, inp, att, s, direction="request",
                      position="attr", path=path)
     # 3. oracle: real request
     for pretty in (False, True):
